@@ -126,8 +126,12 @@ def other_line(draw, isa):
         ("align", ["16"]), ("byte", ["100", "103", "144"]), ("text", []), ("p2align", ["4", "", "15"]),
         ("globl", ["main"]), ("type", ["main", "@function"] if isa == "x86" else ["main", "%function"]),
         ("file", ['"a b.c"']), ("long", ["0x10"]), ("size", ["main", ".-main"]),
-        ("section", [".text", '"ax"'])]))
-    sep = draw(st.sampled_from([",", ", ", " ,"]))
+        ("section", [".text", '"ax"']),
+        # debug / unwind directives as compilers emit them: parameters separated by blanks
+        ("loc", ["1", "23", "0"], " "), ("loc", ["1", "5", "3", "is_stmt", "0"], " "), ("file", ["1", '"x.c"'], " "),
+        ("ident", ['"GCC: (GNU) 9.1"']), ("cfi_startproc", []), ("cfi_def_cfa_offset", ["16"]),
+        ("cfi_offset", ["29", "-16"])]))
+    sep = draw(st.sampled_from([",", ", ", " ,"])) if len(d) == 2 else draw(st.sampled_from([" ", "  ", "\t"]))
     text = draw(WS) + "." + d[0] + (draw(WS1) + sep.join(d[1]) if d[1] else "") + draw(WS)
     c = draw(st.integers(0, 4)) == 0
     if c:
